@@ -146,6 +146,26 @@ pub fn sanitisation_slips(bases: &[&str]) -> Vec<Vec<u8>> {
     out
 }
 
+/// every single-byte substitution (all 256 values) at every position of the base strings
+pub fn byte_substitutions(bases: &[&str]) -> Vec<Vec<u8>> {
+    let mut out = vec![];
+    for b in bases {
+        let b = b.as_bytes();
+        for i in 0..b.len() {
+            for v in 0..=255u8 {
+                if v != b[i] {
+                    let mut c = b.to_vec();
+                    c[i] = v;
+                    out.push(c);
+                }
+            }
+        }
+    }
+    out.sort();
+    out.dedup();
+    out
+}
+
 pub const SLIP_BASES_LANGID: &[&str] = &["en", "und", "en-US", "de_AT", "sr-Cyrl-RS", "ca-ES-valencia", "sl-1994", "es-419", "EN-latn-us", "abcde-Kana-001-1abc-nedis"];
 pub const SLIP_BASES_LOCALE: &[&str] = &["en-u-ca-buddhist", "en-US-t-es-ar-k0-kana", "und-x-priv", "de-u-attr-co-phonebk-t-h0-hybrid-x-a-b", "sk-Latn-SK-u-nu-latn", "en-t-k0-kana-u-ks-level1"];
 
@@ -181,6 +201,9 @@ pub fn langid_space(cfg: &Cfg, tag: &str, f: &ByteCheck<'_>) -> Stats {
     all.dedup();
     d.list("G5 CLDR locale names, likelySubtags keys and values", &all);
     d.list("sanitisation slips: well-formed ids padded with whitespace / control characters / separators, or with a letter that case-folds to ASCII", &sanitisation_slips(SLIP_BASES_LANGID));
+    d.list("every single-byte substitution (256 values x every position) of 10 well-formed language ids", &byte_substitutions(SLIP_BASES_LANGID));
+    let nl = cfg.pick(20_000, 300_000);
+    d.strategy("very long variant lists: 20-80 variants drawn from a 12-element pool, so repeats are certain (proptest)", &gen::s_langid_many_variants(), cfg.seed, &format!("{tag}-manyvar"), nl, |b| b.clone());
     d.total
 }
 
@@ -222,5 +245,12 @@ pub fn locale_space(cfg: &Cfg, tag: &str, f: &ByteCheck<'_>) -> Stats {
     d.list("G5 CLDR locale names x extension suffixes", &all);
     let bases: Vec<&str> = SLIP_BASES_LANGID.iter().chain(SLIP_BASES_LOCALE.iter()).cloned().collect();
     d.list("sanitisation slips: well-formed locales padded with whitespace / control characters / separators, or with a letter that case-folds to ASCII", &sanitisation_slips(&bases));
+    d.list("every single-byte substitution (256 values x every position) of 16 well-formed ids / locales", &byte_substitutions(&bases));
+    let nl = cfg.pick(10_000, 200_000);
+    d.strategy("very long variant lists (20-80, repeats certain) followed by extensions (proptest)", &gen::s_langid_many_variants(), cfg.seed, &format!("{tag}-manyvar"), nl, |b| {
+        let mut v = b.clone();
+        v.extend_from_slice(b"-u-attr-ca-buddhist-x-a");
+        v
+    });
     d.total
 }
